@@ -243,6 +243,21 @@ class Tensor(SymArr):
 
         return Tensor(tuple(self.shape[k] for k in perm), fn, self.kind)
 
+    def flip(self, *dims):
+        """torch.Tensor.flip: out[.., i, ..] = self[.., n-1-i, ..] along each listed axis (exact index map)."""
+        if len(dims) == 1 and isinstance(dims[0], (tuple, list)):
+            dims = tuple(dims[0])
+        axes = sorted({self._axis(d) for d in dims})
+        src = self
+
+        def fn(*i):
+            i = list(i)
+            for ax in axes:
+                i[ax] = lift(S(src.shape[ax])) - 1 - i[ax]
+            return src.fn(*i)
+
+        return Tensor(self.shape, fn, self.kind)
+
     def flatten(self):
         return self.view(-1)
 
@@ -516,6 +531,18 @@ def gs_log(ctx):
     return ctx.ghost.setdefault("c07_grid_sample", [])
 
 
+def rot_log(ctx):
+    return ctx.ghost.setdefault("c07_rot90", [])
+
+
+def rot90_source(km, n0, n1, i, j):
+    """torch.rot90(x, k, dims=(d0, d1)) with k = km (mod 4): the (d0, d1)-index of x that output index (i, j) of the (d0, d1)
+    plane reads.  n0, n1 = extents of x along d0, d1.  (k=1: x.flip(d1).transpose(d0, d1); k=2: x.flip(d0).flip(d1);
+    k=3: x.flip(d0).transpose(d0, d1) - the rotation is about the geometric centre ((n0-1)/2, (n1-1)/2) of the plane.)"""
+    n0, n1 = lift(n0), lift(n1)
+    return [(i, j), (j, n1 - 1 - i), (n0 - 1 - i, n1 - 1 - j), (n0 - 1 - j, i)][km]
+
+
 def install(reg):
     M = reg.models
     reg.setitem_models[Tensor] = tensor_setitem
@@ -529,6 +556,13 @@ def install(reg):
     def _arange(lib):
         def m_arange(interp, *a, dtype=None, device=None, **kw):
             if not contains_sym(a):
+                if 1 <= len(a) <= 3 and all(isinstance(v, int) and not isinstance(v, bool) for v in a) and interp.ctx.ghost.get("c07_arange_as_index_function") \
+                        and (len(a) < 3 or a[2] != 0):
+                    # arange of integer literals as the index function i -> start + i*step of length len(range(...)) (exact): a loop over
+                    # it is then verified by its invariant at an arbitrary position instead of being unrolled (opt-in per contract, via
+                    # the ghost flag)
+                    rg = range(*a)
+                    return Tensor((len(rg),), lambda i, _s=rg.start, _st=rg.step: Sym(_s + _st * lift(i)), "int")
                 return interp.native(lib.arange, *a, **({"dtype": dtype} if dtype is not None else {}), **kw)
             if len(a) == 1:
                 start, stop, step = 0, a[0], 1
@@ -586,6 +620,21 @@ def install(reg):
 
     M[torch.arange] = _arange(torch)
     M[np.arange] = _arange(np)
+
+    _enumerate_default = M.get(enumerate)
+
+    def m_enumerate(interp, xs, start=0):
+        # companion of the opt-in above: enumerate() over an index-function tensor stays an index-function iterable
+        # (the generic model lists the elements when the length is a literal, which makes the loop an unrolled one)
+        if isinstance(xs, Tensor) and interp.ctx.ghost.get("c07_arange_as_index_function"):
+            from ..interp import SymEnumerate
+
+            return SymEnumerate(xs, start)
+        if _enumerate_default is None:
+            raise OutOfSubset("enumerate")
+        return _enumerate_default(interp, xs, start)
+
+    M[enumerate] = m_enumerate
 
     def _zeros(lib):
         def m_zeros(interp, *a, dtype=None, device=None, **kw):
@@ -879,6 +928,114 @@ def install(reg):
 
     M[F.grid_sample] = m_grid_sample
 
+    def m_rot90(interp, x, k=1, dims=(0, 1)):
+        """torch.rot90: an exact index map (no interpolation).  A symbolic k forks on k mod 4."""
+        if not isinstance(x, SymArr) and not contains_sym(k):
+            return interp.native(torch.rot90, x, k, dims)
+        if not isinstance(x, SymArr):
+            raise OutOfSubset("rot90 of a concrete tensor with a symbolic k")
+        ctx = interp.ctx
+        dims = [d.literal() if isinstance(d, Sym) else d for d in dims]
+        if len(dims) != 2 or any(not isinstance(d, int) for d in dims):
+            raise RaiseSig(RuntimeError("expected total rotation dims == 2"))
+        if any(d < -x.ndim or d >= x.ndim for d in dims):
+            raise RaiseSig(IndexError("Dimension out of range"))
+        d0, d1 = dims[0] % x.ndim, dims[1] % x.ndim
+        if d0 == d1:
+            raise RaiseSig(RuntimeError("expected rotation dims to be different"))
+        kt = lift(S(k))
+        if not z3.is_int(kt):
+            raise OutOfSubset("rot90 with a non-integer k")
+        lit = z3.simplify(kt % 4)   # SMT mod with a positive divisor is Python's %
+        if z3.is_int_value(lit):
+            km = lit.as_long()
+        else:
+            km = 3
+            for c in (0, 1, 2):
+                if ctx.branch(kt % 4 == c):
+                    km = c
+                    break
+        n0, n1 = x.shape[d0], x.shape[d1]
+        shape = list(x.shape)
+        if km in (1, 3):
+            shape[d0], shape[d1] = n1, n0
+        src = x
+
+        def source(i, j):
+            return rot90_source(km, n0, n1, i, j)
+
+        def fn(*idx):
+            idx = list(idx)
+            idx[d0], idx[d1] = source(idx[d0], idx[d1])
+            return src.fn(*idx)
+
+        out = Tensor(tuple(shape), fn, x.kind)
+        rot_log(ctx).append(dict(input=x, k=k, km=km, dims=(d0, d1), out=out, source=source))
+        return out
+
+    M[torch.rot90] = m_rot90
+
+    # ---------------------------------------------------------------- constant tensors / reductions used by the callers
+    def _like(lib_f, v):
+        def h(interp, x, dtype=None, device=None, **kw):
+            if not isinstance(x, SymArr):
+                return interp.native(lib_f, x, **kw)
+            return Tensor(x.shape, lambda *i: v, "real")
+        return h
+
+    def m_as_tensor(interp, x, dtype=None, device=None, **kw):
+        # torch.as_tensor of a tensor: the same values (A1: the float32 conversion is ignored)
+        if isinstance(x, (SymArr, Sym)):
+            return Tensor.of(x) if isinstance(x, SymArr) else x
+        return interp.native(torch.as_tensor, x, dtype=dtype, **kw)
+
+    M[torch.as_tensor] = m_as_tensor
+
+    def m_remainder(interp, x, d):
+        """torch.remainder(x, d) = x - d*floor(x/d) elementwise (exact real remainder, sign of the divisor)."""
+        if not isinstance(x, (SymArr, Sym)) and not isinstance(d, (SymArr, Sym)):
+            return interp.native(torch.remainder, x, d)
+        if isinstance(d, SymArr):
+            raise OutOfSubset("remainder with a tensor divisor")
+
+        def rem(e, _=None):
+            e = reals._real(e)
+            dd = reals._real(d)
+            return Sym(e - dd * z3.ToReal(z3.ToInt(e / dd)))
+
+        if isinstance(x, Tensor):
+            return x._ew(0, rem)
+        if isinstance(x, SymArr):
+            return Tensor.of(elementwise(lambda e: rem(e), x))
+        return rem(x)
+
+    M[torch.remainder] = m_remainder
+    M[torch.ones_like] = _like(torch.ones_like, 1.0)
+    M[torch.zeros_like] = _like(torch.zeros_like, 0.0)
+
+    def m_abs(interp, x):
+        if isinstance(x, Tensor):
+            return abs(x)
+        if isinstance(x, SymArr):
+            return Tensor.of(elementwise(lambda e: abs(S(e)), x))
+        if isinstance(x, Sym):
+            return abs(x)
+        return interp.native(torch.abs, x)
+
+    M[torch.abs] = m_abs
+
+    def m_mean(interp, x, *a, **kw):
+        """torch.mean over ALL elements: an uninterpreted scalar, logged with its argument (a function of that argument only)."""
+        if not isinstance(x, SymArr):
+            return interp.native(torch.mean, x, *a, **kw)
+        if a or kw:
+            raise OutOfSubset("torch.mean with dim= / keepdim=")
+        out = interp.ctx.fresh("mean", "real")
+        interp.ctx.ghost.setdefault("c07_mean", []).append(dict(src=x, out=out))
+        return out
+
+    M[torch.mean] = m_mean
+
     # ---------------------------------------------------------------- Fourier transforms (A5)
     def _fft(op):
         def h(interp, x, n=None, dim=-1, axis=None, norm=None, **kw):
@@ -996,6 +1153,29 @@ def conformance_cases():
         lb = max(0, math.ceil((0 - (size / 2 - 1)) / -2))
         yield (f"np.arange float bounds dtype=int ({size})", not (len(a) == la and len(b) == lb and list(a) == [int(1 + 2 * i) for i in range(la)]
                                                                      and list(b) == [int(size / 2 - 1 - 2 * i) for i in range(lb)]), "")
+    for xv, dv in ((180.0, 180.0), (0.0, 180.0), (179.5, 180.0), (-30.0, 180.0), (270.0, 180.0), (7.5, -2.0)):
+        import math as _m
+        yield (f"remainder({xv},{dv})", abs(float(torch.remainder(torch.tensor(xv), dv)) - (xv - dv * _m.floor(xv / dv))) > 1e-5, "")
+    # rot90: exact index map, every k mod 4 (negative k too), non-square planes, planes inside a batch
+    for shape, dims in (((2, 3), (0, 1)), ((3, 2), (1, 0)), ((2, 4, 3), (1, 2)), ((2, 3, 3), (1, 2)), ((2, 3, 4), (-1, 0))):
+        xr = torch.arange(int(np.prod(shape))).reshape(shape)
+        d0, d1 = dims[0] % len(shape), dims[1] % len(shape)
+        for k in (-5, -2, -1, 0, 1, 2, 3, 6):
+            got = torch.rot90(xr, k, dims=dims)
+            km = k % 4
+            eshape = list(shape)
+            if km in (1, 3):
+                eshape[d0], eshape[d1] = shape[d1], shape[d0]
+            ok = list(got.shape) == eshape
+            if ok:
+                for idx in np.ndindex(*eshape):
+                    sidx = list(idx)
+                    r_, c_ = rot90_source(km, shape[d0], shape[d1], z3.IntVal(int(idx[d0])), z3.IntVal(int(idx[d1])))
+                    sidx[d0], sidx[d1] = z3.simplify(lift(r_)).as_long(), z3.simplify(lift(c_)).as_long()
+                    if int(got[idx]) != int(xr[tuple(sidx)]):
+                        ok = False
+                        break
+            yield (f"rot90(shape={shape}, k={k}, dims={dims})", not ok, "")
     # grid_sample element function: bilinear, zeros outside, align_corners=True un-normalisation
     g = torch.Generator().manual_seed(3)
     img = torch.rand(1, 1, 4, 5, generator=g)
